@@ -29,7 +29,13 @@ theorem creditConsumedBy_cases {r : Recv} {offset received maxData : Nat} {res :
         exact Or.inr (Or.inl ⟨by omega, h2, h.symm⟩)
       · simp only [h2, decide_false, Bool.false_eq_true, ↓reduceIte, Option.some.injEq] at h
         exact Or.inr (Or.inr ⟨by omega, by omega, h.symm⟩)
-    · simp [h0] at h
+    · simp only [h0, ↓reduceIte] at h
+      by_cases hg : (Gen.creditOverflowIsError && decide (maxData < 2 ^ 64)) = true
+      · simp only [hg, ↓reduceIte, Option.some.injEq] at h
+        have hm : maxData < 2 ^ 64 := by
+          simp only [Bool.and_eq_true, decide_eq_true_eq] at hg; exact hg.2
+        exact Or.inr (Or.inl ⟨by omega, by omega, h.symm⟩)
+      · simp [hg] at h
 
 theorem finalSizeErr_iff (r : Recv) (end_ : Nat) (fin : Bool) :
     r.finalSizeErr end_ fin = true ↔ r.finalSizeConflict end_ fin := by
